@@ -289,7 +289,7 @@ fn defcal_(p: &mut Parser<'_>, m: Marker) {
 
 // Parse either a declaration statement or a cast expression (and possible surrounding EXPR_STMT)
 pub(crate) fn _returns_bool_classical_declaration_stmt(p: &mut Parser<'_>, m: Marker) -> bool {
-    p.eat(T![const]);
+    let has_const = p.eat(T![const]);
     // To prepare for the possibility that this is a cast expression rather than a
     // declaration statement, we start a new marker `mexpr` and parse the type
     // specificiation. If it is in fact not a cast expression, we abandon `mexpr`, and the
@@ -300,6 +300,9 @@ pub(crate) fn _returns_bool_classical_declaration_stmt(p: &mut Parser<'_>, m: Ma
     expressions::type_spec(p);
     // An opening paren means this is actually a cast
     if p.current() == T!['('] {
+        if has_const {
+            p.error("`const` is only allowed in a declaration, not before a cast expression");
+        }
         p.expect(T!['(']);
         expressions::expr(p);
         p.expect(T![')']);
